@@ -89,6 +89,11 @@ def reference(comp):
                     if (t, (f, False), s) not in vt:
                         problems.append(f'no variable for {f}@{t} slot {s}')
                         return None, problems
+    # no variable may exist for a cell where the factor does not apply
+    for (t, (fname, hidden), li), v in vt.items():
+        if not hidden and fname in sem.factors and not cells.applies(fname, t):
+            problems.append(f'layout: a variable is allocated for {fname}@{t} where the factor does not apply')
+            return None, problems
     R = formula(sem, cells)
     # hidden name-factors introduced for weighted levels: defined by the copy that was chosen
     for (t, (fname, hidden), li), v in vt.items():
